@@ -299,7 +299,11 @@ def f8(src, st):
     return sorted(set(panics)), sorted(set(narrows))
 
 # ---------------------------------------------------------------- F11 decision budget
-BUDGET_OPS = [('if', r'\bif\b'), ('match', r'\bmatch\b'), ('while', r'\bwhile\b'), ('==', r'=='), ('!=', r'!='), ('<=', r'<='), ('>=', r'(?<![=])>='), ('&&', r'&&'), ('||', r'\|\|')]
+BUDGET_OPS = [('if', r'\bif\b'), ('match', r'\bmatch\b'), ('while', r'\bwhile\b'), ('==', r'=='), ('!=', r'!='), ('<=', r'<='), ('>=', r'(?<![=])>='), ('&&', r'&&'), ('||', r'\|\|'),
+              # owner's full budget only: other ways of testing a value (rustfmt spacing tells `a < b` from generics)
+              ('lt', r' < '), ('gt', r' > '), ('matches!', r'\bmatches!\s*\('), ('rem', r' % '), ('xor', r' \^ '), ('and', r' & ')] + \
+             [('.' + m, r'\.\s*%s\s*\(' % m) for m in ('contains', 'starts_with', 'ends_with', 'eq', 'ne', 'cmp', 'strip_prefix', 'strip_suffix', 'find', 'position', 'any', 'all', 'filter',
+                                                      'is_zero', 'checked_sub', 'checked_add', 'wrapping_sub', 'wrapping_add', 'count_ones', 'rem_euclid', 'abs', 'then', 'then_some', 'take_while', 'skip_while')]
 def f11(src, st):
     """per module: how many branching constructs / comparisons and which integer literals (how often) the non-test source holds.
     A needle (`if n == 4096 {..}`) that no stream will ever hit still adds a branch, a comparison or a literal.  String and character
